@@ -169,6 +169,12 @@ def _returns(fn):
     return rets, nested[0]
 
 
+def _pure_arg(e):
+    """no calls, no comprehension: evaluating it twice (or not at all) cannot be observed"""
+    return not any(isinstance(x, (ast.Call, ast.ListComp, ast.GeneratorExp, ast.SetComp, ast.DictComp, ast.Yield, ast.Await, ast.NamedExpr))
+                   for x in ast.walk(e))
+
+
 def _simple_arg(e):
     while isinstance(e, ast.Attribute):
         e = e.value
@@ -247,6 +253,22 @@ class Helper(object):
                                            (isinstance(c.func, ast.Name) and c.func.id == fn.name)):
                 self.ok = False
         self.expr_only = len(body) == 1 and isinstance(body[0], ast.Return) and body[0].value is not None
+        self.expr_body = body[0].value if self.expr_only else None
+        if not self.expr_only and self.ok and body and isinstance(body[-1], ast.Return) and body[-1].value is not None:
+            # `a = self.x; b = self.y; return f(a, b)`: plain aliases of attribute paths folded into the result
+            al = {}
+            good = True
+            for st in body[:-1]:
+                if isinstance(st, ast.Assign) and len(st.targets) == 1 and isinstance(st.targets[0], ast.Name) and _simple_arg(st.value) \
+                        and st.targets[0].id not in al:
+                    al[st.targets[0].id] = st.value
+                else:
+                    good = False
+            if good and al:
+                stores = [x.id for x in ast.walk(fn) if isinstance(x, ast.Name) and isinstance(x.ctx, ast.Store)]
+                if all(stores.count(k) == 1 for k in al):
+                    self.expr_only = True
+                    self.expr_body = _Subst({}, al).visit(copy.deepcopy(body[-1].value))
 
 
 def _bind(helper, call):
@@ -274,9 +296,14 @@ def _bind(helper, call):
     return m
 
 
+_ALIASES = {}
+
+
 def _is_call_to(call, helper, in_class):
     f = call.func
     name = helper.fn.name
+    if isinstance(f, ast.Name) and _ALIASES.get(f.id) == name and helper.kind != "func":
+        return in_class == helper.clsname
     if helper.kind == "func":
         return isinstance(f, ast.Name) and f.id == name
     if not (isinstance(f, ast.Attribute) and f.attr == name and isinstance(f.value, ast.Name)):
@@ -343,12 +370,12 @@ class _ExprInliner(ast.NodeTransformer):
         for h in self.helpers:
             if h.ok and h.expr_only and _is_call_to(n, h, self.in_class):
                 m = _bind(h, n)
-                if m is None or not all(_simple_arg(a) for a in m.values()):
+                if m is None or not all(_pure_arg(a) for a in m.values()):
                     continue
                 exprs = dict(m)
                 if h.kind == "class":
                     continue
-                e = _Subst({}, exprs).visit(copy.deepcopy(h.body[0].value))
+                e = _Subst({}, exprs).visit(copy.deepcopy(h.expr_body))
                 self.changed = True
                 return ast.copy_location(e, n)
         return n
@@ -498,13 +525,72 @@ def inline_new_helpers(modname, tree, inv):
                 else:
                     hs = helpers
                 state = {"n": 0, "changed": False}
+                # bound-method aliases of the helpers in this caller:  h = self._helper  (single assignment)
+                _ALIASES.clear()
+                stores = {}
+                for x in ast.walk(f):
+                    if isinstance(x, ast.Name) and isinstance(x.ctx, ast.Store):
+                        stores[x.id] = stores.get(x.id, 0) + 1
+                alias_stmts = []
+                for x in ast.walk(f):
+                    if isinstance(x, ast.Assign) and len(x.targets) == 1 and isinstance(x.targets[0], ast.Name) and stores.get(x.targets[0].id) == 1 \
+                            and isinstance(x.value, ast.Attribute) and isinstance(x.value.value, ast.Name) and x.value.value.id == "self" \
+                            and any(h.fn.name == x.value.attr and h.ok for h in hs):
+                        _ALIASES[x.targets[0].id] = x.value.attr
+                        alias_stmts.append(x)
                 f.body = _inline_block(f.body, hs, cname, f, state)
+                if _ALIASES and state["changed"]:
+                    # drop alias assignments that are no longer used
+                    used = set(x.id for x in ast.walk(f) if isinstance(x, ast.Name) and isinstance(x.ctx, ast.Load))
+                    dead = [a_ for a_ in alias_stmts if a_.targets[0].id not in used]
+                    if dead:
+                        for holder in ast.walk(f):
+                            for field in ("body", "orelse", "finalbody"):
+                                b = getattr(holder, field, None)
+                                if isinstance(b, list):
+                                    for a_ in dead:
+                                        if a_ in b:
+                                            b.remove(a_)
+                                    if not b and field == "body":
+                                        b.append(ast.Pass())
+                _ALIASES.clear()
                 if state["changed"]:
                     changed_any = True
                     inlined.append("%s.%s" % (prefix if cname is None or not is_class else prefix, f.name))
         if not changed_any:
             break
     return inlined
+
+
+def drop_unreferenced_new_helpers(modname, tree, inv):
+    """A new private helper whose every call site was inlined is removed from the analysed tree: the program then looks
+    exactly as before the extraction (rules that enumerate functions do not see a function the reference lacks)."""
+    dropped = []
+    for prefix, node, funcs in _scopes(modname, tree):
+        for f in funcs:
+            q = prefix + "." + f.name
+            if q in inv or not _is_private(f.name):
+                continue
+            refs = 0
+            for x in ast.walk(tree):
+                if x is f:
+                    continue
+                if isinstance(x, ast.Attribute) and x.attr == f.name:
+                    refs += 1
+                elif isinstance(x, ast.Name) and x.id == f.name:
+                    refs += 1
+            # references inside the helper's own body (recursion) do not count; those are excluded from inlining anyway
+            own = sum(1 for x in ast.walk(f) if (isinstance(x, ast.Attribute) and x.attr == f.name) or (isinstance(x, ast.Name) and x.id == f.name))
+            if refs - own == 0:
+                for holder in ast.walk(tree):
+                    for field in ("body", "orelse", "finalbody"):
+                        b = getattr(holder, field, None)
+                        if isinstance(b, list) and f in b:
+                            b.remove(f)
+                            if not b:
+                                b.append(ast.copy_location(ast.Pass(), f))
+                dropped.append(q)
+    return dropped
 
 
 def apply(modname, tree):
@@ -518,4 +604,7 @@ def apply(modname, tree):
     inl = inline_new_helpers(modname, tree, inv)
     if inl:
         info["inlined_into"] = sorted(set(inl))
+        dropped = drop_unreferenced_new_helpers(modname, tree, inv)
+        if dropped:
+            info["dropped_helpers"] = dropped
     return tree, info
